@@ -368,6 +368,8 @@ class TaskDispatcher(object):
         # queues
         self.waiting = set()  # of ExecNode
         self.ready = deque()  # of ExecNode
+        # nodes sent to runner that were not marked as processed yet
+        self.dispatched = set()  # of ExecNode
 
         self.generator = self._dispatcher_generator(selected_tasks)
 
@@ -555,6 +557,7 @@ class TaskDispatcher(object):
             return
 
         node = processed
+        self.dispatched.discard(node)
 
         # if node was waiting select must only receive select event
         if node.wait_select:
@@ -611,6 +614,24 @@ class TaskDispatcher(object):
 
 
 
+    def _check_deadlock(self):
+        """all nodes are waiting, if no task is being executed there is
+        a cyclic dependency that was not detected when creating the nodes"""
+        if self.dispatched:
+            return
+        node = next(iter(self.waiting))
+        path = []
+        while node.task.name not in path:
+            path.append(node.task.name)
+            wait_for = sorted(node.wait_run | node.wait_run_calc)
+            if not wait_for:
+                break
+            node = self.nodes[wait_for[0]]
+        path.append(node.task.name)
+        msg = "Cyclic/recursive dependencies for task %s: [%s]"
+        raise InvalidDodoFile(msg % (node.task.name, " -> ".join(path)))
+
+
     def _dispatcher_generator(self, selected_tasks):
         """return generator dispatching tasks"""
         # each selected task will create a tree (from dependencies) of
@@ -625,6 +646,7 @@ class TaskDispatcher(object):
                 if not node:
                     if self.waiting:
                         # all tasks are waiting, hold on
+                        self._check_deadlock()
                         processed = (yield "hold on")
                         self._update_waiting(processed)
                         continue
@@ -641,6 +663,7 @@ class TaskDispatcher(object):
 
             # got a task, send ExecNode to runner
             if isinstance(next_step, Task):
+                self.dispatched.add(self.nodes[next_step.name])
                 processed = (yield self.nodes[next_step.name])
                 self._update_waiting(processed)
 
